@@ -6,6 +6,22 @@ props = [json.loads(l) for l in open(os.path.join(V, "properties.jsonl"))]
 
 # property -> (level text, level note, technique, design_ref)
 CLAIMED = {
+ "C08": ("TLC explores the item-splitting cursor machine (Items.tla: BeginItem, ParseSigThenBodyOrSemi, ScanToBraceOrSemi, "
+         "EatTrailingSemis) over every module body of up to N items from a 37-template catalogue with ground-truth labels and checks "
+         "methods-found = ground truth; every body is expanded by the real macro, compiled with a parent-scope client that names the "
+         "trait and calls every expected method, and run; TLC validates observed method lists, verdicts and call results against Level 1 "
+         "(Req!C08), against the model's prediction, and the B3 round trip of the renderer.",
+         "bounded (bodies <= 2 items quick / 3 thorough); catalogue = the item shapes considered; trusts rustc, TLC, projector",
+         "TLA+ model of ModItem::parse checked by TLC against ground-truth labels + exhaustive replay through the real macro with TLC trace validation",
+         "7/C08"),
+ "C02": ("Design level: TLC shows the item splitter partitions every catalogue body (mod and impl) into consecutive non-empty chunks "
+         "(lossless re-emission). Code level: TLC evaluates the token relations of Level 1 (Req!C02: fn prefix, opaque-body spacing, "
+         "module prefix up to the matching closing brace, impl block kept beside) on the real input/output token streams recorded by "
+         "the hook for every enumerated body, for seeded random fns/mods/impl blocks with rich attributes, qualifiers and token soups, "
+         "and for every invocation of the repository's own test-suite.",
+         "token identity is kind+text (spacing hint only inside opaque fn bodies); spans/hygiene unobservable; random part seeded by VERIF_SEED",
+         "TLC trace validation of recorded (input, output) token streams against Level-1 token relations + TLC model checking of the item splitter's losslessness",
+         "7/C02"),
  "C16": ("TLC explores the parameter-renaming machine (Params.tla: Simplify, LiftInner, Autogenerate, FixIdentConflicts) over every "
          "pattern list up to the length bound and checks that it refines the Level-1 statement (Req!C16); every enumerated list is then "
          "expanded by the real macro inside rustc, compiled and run, and TLC validates the recorded observations (names, forwarding, "
